@@ -26,6 +26,11 @@ def iterator_driven(f, h, body):
                 if d[1] == "term" and d[0] in body:
                     n = M.callee_name(d[2]) or ""
                     if n.endswith(("::next", "::next_back")) and "Iterator" in n or n.endswith("::next") and ("Iter" in n or "iter" in n or "Chars" in n or "Lines" in n or "Split" in n):
+                        ty = (d[2].get("argtys") or [""])[0]
+                        # an integer range (or an endless adaptor) is a counter, not a finite collection: its bound is
+                        # whatever the program computed, so such loops are reviewed like hand-written ones
+                        if any(x in ty for x in ("ops::Range", "ops::range::Range", "iter::Repeat", "iter::StepBy", "iter::Successors", "iter::Cycle", "iter::FromFn")):
+                            return None
                         return n
     return None
 
@@ -85,7 +90,7 @@ def sccs(P, reach):
     return res
 
 
-def run(ctx, res, reach, label_suffix=""):
+def run(ctx, res, reach, label_suffix="", defect_for=()):
     """NATIVE-LOOPS and RECURSION over the given reachable set (thorough tier)."""
     P = ctx.P
     LT = json.load(open(os.path.join(VERIF, "tables", "loops.json")))["loops"]
@@ -109,15 +114,25 @@ def run(ctx, res, reach, label_suffix=""):
     res.ok("NATIVE-LOOPS", "iterator-driven loops=%d (terminate with their finite collection)" % n_it)
     res.floor("NATIVE-LOOPS", "natural loops in the reachable functions", len(inv), 100)
     anchors = RT["anchors"]
+    defect = RT.get("defect_classes", {})
     cs = sccs(P, reach)
+    by_class = {}
     for c in cs:
         hit = [a for a in anchors if a in c]
         if hit:
-            res.ok("RECURSION", "%s (+%d): %s" % (hit[0], len(c) - 1, anchors[hit[0]]["class"]), "residue")
+            k = anchors[hit[0]]["class"]
+            by_class.setdefault(k, []).append(hit[0])
+            if k not in defect or k not in defect_for:
+                res.ok("RECURSION", "%s (+%d): %s" % (hit[0], len(c) - 1, k), "residue")
         else:
             res.bad("RECURSION", "recursion # " + c[0],
                     "native recursion through %s is not in the reviewed inventory: its depth needs a bound "
                     "(a recursion per nested element of user data overflows the stack)" % ", ".join(c[:4]), P.funcs[c[0]].loc())
+    for k in sorted(by_class):
+        if k in defect and k in defect_for:
+            res.bad("RECURSION", "recursion # " + k,
+                    "%s (%d recursive component(s): %s)" % (defect[k], len(by_class[k]), ", ".join(sorted(by_class[k])[:5])),
+                    P.funcs[sorted(by_class[k])[0]].loc())
     res.floor("RECURSION", "recursive components in the reachable functions", len(cs), 5)
     res.extra.setdefault("thorough", {})["loops%s" % label_suffix] = {
         "loops": len(inv), "iterator_driven": n_it, "reviewed_functions": len(per), "recursive_components": len(cs)}
